@@ -16,7 +16,8 @@ LEVEL_TEXT = (
     "arrays, maps, tags, simple values, floats) and every continuation, the reader run on writer-output ++ rest yields "
     "the item and rest, and the fuel decode starts with suffices (readItem_encode, decode_encode); composed: "
     "from_bytes(to_bytes t) = t for every transaction meeting the executable hypotheses bytesHyps (C11_wire_roundtrip, "
-    "C11_bytes_injective). Tied to the code per generated tree: the model "
+    "C11_bytes_injective), where nestTx - the deepest point ciborium's recursion budget is charged for on the encoding "
+    "(one unit per enum, sequence/tuple, map/struct) - is at most 256, and an error beyond it (C11_too_deep). Tied to the code per generated tree: the model "
     "encoder equals encoding::to_bytes byte for byte, the model reader (CBOR reader + untx) reads the REAL bytes back "
     "to the tree that was encoded, every generated expression satisfies the shape hypothesis, and the real "
     "decode(encode t) is canonically equal to t with the same reported parameters and queries and a stable re-encoding."
@@ -24,7 +25,8 @@ LEVEL_TEXT = (
 LEVEL_NOTE = (
     "Partial: the hypotheses of the byte-level theorem (bytesHyps: item within CBOR head ranges, slots shaped and no "
     "larger than the reader's fuel) are evaluated per generated transaction (tag wire-theorem-hyps-hold), not derived "
-    "from the encoder; ciborium's recursion limit (256) is not in the model reader; the real serde-derived decoder is compared on encoder outputs only; that arbitrary, truncated or "
+    "from the encoder; ciborium's recursion budget is modelled by nestTx and compared with the real decoder at the boundary of every "
+    "slot x wrapper pair, not derived from ciborium's source; the real serde-derived decoder is compared on encoder outputs only; that arbitrary, truncated or "
     "deeply nested bytes never panic or abort the real decoder is runtime behaviour of ciborium, explored in child "
     "processes (so that an abort is observed, not fatal)."
 )
@@ -33,14 +35,16 @@ TARGETS = ["Tx3Proofs.C11", "Tx3Proofs.C11Roundtrip"]
 THEOREMS = ["Tx3.Cbor.beNat_natToBytes", "Tx3.Wire.C11_int128_roundtrip", "Tx3.Wire.C11_bytes_roundtrip", "Tx3.Wire.C11_version_gate",
             "Tx3.Wire.strOf_txtBytes", "Tx3.Wire.txtBytes_inj", "Tx3.Wire.C11_expr_roundtrip", "Tx3.Wire.C11_expr_injective",
             "Tx3.Wire.C11_tx_roundtrip", "Tx3.Cbor.readItem_encode", "Tx3.Cbor.decode_encode", "Tx3.Cbor.wfb_all",
-            "Tx3.Wire.C11_wire_roundtrip", "Tx3.Wire.C11_bytes_injective"]
+            "Tx3.Wire.C11_wire_roundtrip", "Tx3.Wire.C11_too_deep", "Tx3.Wire.C11_bytes_injective"]
 RULE = (
     "cases = IR values: every transaction lowered from /repo/examples/*.tx3 and from 30 generated programs; random IR "
     "trees (every expression and block variant, depth 1..6, parameters/inputs/fees/compiler ops, boundary integers, a "
     "malformed tail), half of them after apply_inputs so that UTxO sets occur; 6 version names; garbage batches of 400 "
     "byte strings each (random, bit-flipped, truncated, spliced valid encodings, untyped nesting bombs to depth 10^5, typed "
     "nesting bombs - one of 16 IR wrappers nested 10..10^5 times inside the fees / a reference / a datum slot of a real "
-    "encoding, assembled as bytes - huge length prefixes) decoded on a 2 MiB thread in child processes. Non-trivial = every case; distinct = distinct IR value"
+    "encoding, assembled as bytes - huge length prefixes) decoded on a 2 MiB thread in child processes; nesting boundary: for each of 10 expression slots "
+    "of a transaction x 16 IR wrappers the deepest nesting the real decoder accepts is scanned (0..140) and the "
+    "encodings at depths 0, 1 and around it are given to both the real decoder and the model reader. Non-trivial = every case; distinct = distinct IR value"
 )
 ASSUMPTIONS = ["UTxO sets and asset maps with more than one element are compared up to element order (HashSet/HashMap iteration order)",
                "equality after the round trip is canonical equality of the harness's exhaustive TIR-to-JSON conversion"]
